@@ -57,7 +57,7 @@ def c15_case(draw, max_jobs: int = 8):
     return {"jobs": jobs, "fail_at": fail_at, "workers": draw(st.integers(1, 4)),
             "switch": draw(st.sampled_from([1e-6, 1e-5, 1e-4, 5e-3])),
             "fail_kind": draw(st.sampled_from(["divide", "yaml_missing", "value_empty", "cfg_not_nodes", "assert_empty", "yaml_invalid", "runtime", "divide"])),
-            "enqueue_stall_ms": draw(st.sampled_from([0, 0, 0, 400])), "yaml_reuse": draw(st.sampled_from([False, True]))}
+            "enqueue_stall_ms": draw(st.sampled_from([0, 0, 0, 400])), "yaml_reuse": draw(st.sampled_from([False, True])), "shared_pipeline": draw(st.sampled_from([False, True, False]))}
 
 
 def job_config(k: int, job: Dict[str, Any], failing: bool, fail_kind: str = "divide") -> List[Dict[str, Any]]:
@@ -158,6 +158,8 @@ def run_batch(case: Dict[str, Any]) -> Dict[str, Any]:
     out: Dict[str, Any] = {}
     jobdir = tempfile.mkdtemp(prefix="c15-jobs-", dir=".")
     started_flag, shared_yaml, reused = [False], [None], [0]
+    shared_pipes: Dict[str, Any] = {}
+    shared_used = [0]
 
     def _wait(f, seconds: float) -> bool:
         t_end = time.time() + seconds
@@ -173,6 +175,11 @@ def run_batch(case: Dict[str, Any]) -> Dict[str, Any]:
             failing = case["fail_at"] == k
             fk = case.get("fail_kind", "divide")
             cfg = job_config(k, job, failing, fk)
+            share = case.get("shared_pipeline") and job.get("form") == "pipeline" and not failing
+            if share:
+                # every such job of this payload kind is handed the SAME Pipeline object (same configuration, own payload and tag)
+                k0 = next(j for j, o in enumerate(case["jobs"]) if o["kind"] == job["kind"] and o.get("form") == "pipeline" and case["fail_at"] != j)
+                cfg = job_config(k0, case["jobs"][k0], False, fk)
             data = observe.build_data(job["payload"])
             ctx = {"tag": k}
             unloadable = failing and fk in ("yaml_missing", "yaml_invalid", "cfg_not_nodes")
@@ -202,6 +209,11 @@ def run_batch(case: Dict[str, Any]) -> Dict[str, Any]:
                         reused[0] += 1
                 with open(handed, "w") as fh:
                     yaml.safe_dump({"pipeline": {"nodes": copy.deepcopy(cfg)}}, fh)
+            elif form == "pipeline" and share:
+                if job["kind"] not in shared_pipes:
+                    shared_pipes[job["kind"]] = Pipeline(copy.deepcopy(cfg))
+                handed = shared_pipes[job["kind"]]
+                shared_used[0] += 1
             elif form == "pipeline":
                 handed = Pipeline(copy.deepcopy(cfg))
             # the direct run (same configuration, same payload) is the reference
@@ -268,7 +280,7 @@ def run_batch(case: Dict[str, Any]) -> Dict[str, Any]:
                 quiescent = True
                 break
             time.sleep(0.02)
-        out.update(yaml_paths_reused=reused[0], order=early + late, done=[f.done() for f in futures], quiescent=quiescent, waited=time.time() - t0, master_alive=mt.is_alive(),
+        out.update(shared_pipeline_jobs=shared_used[0], yaml_paths_reused=reused[0], order=early + late, done=[f.done() for f in futures], quiescent=quiescent, waited=time.time() - t0, master_alive=mt.is_alive(),
                    status_pubs=list(status_pubs), job_ids=[cfg_ids.get(k) for k in job_ids], expected=expected)
         results = []
         for f in futures:
@@ -297,6 +309,8 @@ def check_case(case: Dict[str, Any], col: Collector) -> None:
     labs = ["jobs:%d" % min(n, 9), "workers:%d" % case["workers"], "switch:%g" % case["switch"]] + (["burst_with_background_traffic"] if case.get("noise") else [])
     if case.get("enqueue_stall_ms"):
         labs.append("enqueue_stalled")
+    if r.get("shared_pipeline_jobs", 0) >= 2:
+        labs.append("one_pipeline_object_shared_by_jobs")
     if r.get("yaml_paths_reused", 0) >= 2:
         labs.append("yaml_path_reused_for_another_pipeline")
     if case["fail_at"] is not None:
@@ -359,8 +373,10 @@ def burst_case(seed: int, r: int) -> Dict[str, Any]:
     for k in range(40):
         kind = kinds[(seed + r + k) % 4]
         payload = M.F(float(k + 1)) if kind == "float" else M.NONE if kind == "none" else M.C([float(k + 1 + j) for j in range((seed + k) % 4)])
-        jobs.append({"kind": kind, "payload": payload, "pause_ms": 0, "before_start": (k % 5) != 4})
-    return {"jobs": jobs, "fail_at": (seed * 7 + r * 13) % 40, "workers": 4, "switch": 1e-6, "noise": True}
+        jobs.append({"kind": kind, "payload": payload, "pause_ms": 0, "before_start": (k % 5) != 4,
+                     "form": "pipeline" if (seed + r) % 2 else ["list", "list", "pipeline", "yaml"][k % 4]})
+    # in every other burst all jobs of one payload kind are handed one and the same Pipeline object
+    return {"jobs": jobs, "fail_at": (seed * 7 + r * 13) % 40, "workers": 4, "switch": 1e-6, "noise": True, "shared_pipeline": bool((seed + r) % 2)}
 
 
 def run_shard(spec: Dict[str, Any]) -> Dict[str, Any]:
